@@ -180,7 +180,7 @@ func c08load() *c08material {
 
 var c08kinds = []string{"getblock", "header", "lookup", "account", "txs", "onetx", "shards", "config", "configparams", "libs", "runmethod", "seqno", "mcinfo", "time", "version", "sendmsg", "listtx", "shardinfo", "blockproof", "state"}
 
-var c08muts = []string{"none", "tl-truncate", "tl-mark", "tl-mark", "tl-set32", "boc-flip", "boc-set", "boc-truncate", "ids-short", "ctor-swap", "err-huge", "boc-roots", "boc-roots", "adnl-len", "adnl-dup", "boc-desc", "boc-desc"}
+var c08muts = []string{"none", "tl-truncate", "tl-mark", "tl-mark", "tl-set32", "boc-flip", "boc-set", "boc-truncate", "ids-short", "ctor-swap", "err-huge", "boc-roots", "boc-roots", "adnl-len", "adnl-dup", "boc-desc", "boc-desc", "boc-fill", "boc-fill"}
 
 // a well-formed bag of cells with one cell and no root
 var c08zeroRootBoc = []byte{0xb5, 0xee, 0x9c, 0x72, 0x01, 0x01, 0x01, 0x00, 0x00, 0x02, 0x00, 0x00}
@@ -234,6 +234,8 @@ func c08mutateBoc(b []byte, f *run.Fault) []byte {
 		out = out[:f.A*len(out)/1000]
 	case "boc-desc":
 		out = bocMutateDescriptor(out, f.A, f.B, f.C)
+	case "boc-fill":
+		out = bocFillCell(out, f.A, f.B)
 	}
 	return out
 }
